@@ -330,7 +330,7 @@ func runC15(c *Check) {
 	}
 
 	// ---- R3 errors of reads are checked
-	c.ruleReadErrorsChecked("R3", []string{"client"}, 100)
+	c.ruleReadErrorsChecked("R3", []string{"client"}, 80)
 	c.ruleWriteOnlyWhatSerialized("R6")
 	c.rulePreallocateOnlyAsCapacity("R8")
 }
